@@ -23,6 +23,7 @@ from .. import common
 
 PROPS_MOD = "VncModel.Props.C10"
 EXTRA_TARGETS = ["drv_c10"]
+GEN = ["c10", "leaf"]     # T0 probe + T1 translation of rfbChannelFitsPixel (Leaf/EquivTranslate.lean)
 HOST_BE = sys.byteorder == "big"
 
 FIELDS = ("bpp", "depth", "be", "tc", "rmax", "gmax", "bmax", "rs", "gs", "bs")
@@ -265,7 +266,7 @@ def oracle(script, impl, checked):
             else:
                 cli = f
             eff = None
-        elif t[0] == "cmap":
+        elif t[0] in ("cmap", "recmap"):
             raw = bytes.fromhex(t[3]) if t[3] != "-" else b""
             is16 = int(t[1])
             vals = unpack(raw, 2, True) if is16 else list(raw)
@@ -345,15 +346,21 @@ def oracle(script, impl, checked):
 
 
 # ------------------------------------------------------------------ script construction
+def cmap_line(op, cm):
+    is16, cnt, vals = cm
+    hx = b"".join(v.to_bytes(2 if is16 else 1, "big") for v in vals).hex() or "-"
+    return "%s %d %d %s" % (op, is16, cnt, hx)
+
+
 def script_for(rng, srv, cli, econ, tier, full16=True, cmap=None, via_msg=None, extra_px=True,
-               stride_mode="multiple", head=()):
+               stride_mode="multiple", head=(), recmap=None):
     lines = list(head) + [srv.line("server"), cli.line("client"), "econ %d" % econ]
     if cmap is not None:
-        is16, cnt, vals = cmap
-        hx = b"".join(v.to_bytes(2 if is16 else 1, "big") for v in vals).hex() or "-"
-        lines.append("cmap %d %d %s" % (is16, cnt, hx))
+        lines.append(cmap_line("cmap", cmap))
     if via_msg is None:
         via_msg = rng.random() < 0.3
+    if recmap:
+        via_msg = True      # only a client that has SENT SetPixelFormat gets its table rebuilt
     lines.append("setmsg" if via_msg else "set")
     inB = srv.bpp // 8
     if srv.tc:
@@ -375,6 +382,14 @@ def script_for(rng, srv, cli, econ, tier, full16=True, cmap=None, via_msg=None, 
             buf, w, h, stride = layout(rng, sub, inB, "rect5", pad_bytes=pad)
             lines.append("px %s %d %d %d" % (buf.hex() or "-", w, h, stride))
             npx += w * h
+    if recmap is not None:
+        # the application changes the palette mid-session (rfbSetClientColourMaps): the same
+        # pixels must now come out in the NEW colours
+        lines.append(cmap_line("recmap", recmap))
+        sub = [vals[rng.randrange(len(vals))] for _ in range(60)] + [0, 1, min(255, len(vals) - 1)]
+        buf, w, h, stride = layout(rng, sub, inB, "rect5")
+        lines.append("px %s %d %d %d" % (buf.hex() or "-", w, h, stride))
+        npx += w * h
     if extra_px:
         # small areas with awkward shapes: 0/1 wide or high, stride 0 / smaller than a row / huge
         for _ in range(4):
@@ -440,8 +455,14 @@ def build_cases(ctx):
                     if not c0.tc and cbe:
                         continue
                     c = c0.replace(be=cbe)
+                    re = None
+                    if cbe == 0:    # palette change mid-session, also switching the map's width
+                        i2 = is16 if c0.bpp != 16 else 1 - is16
+                        t2 = 65535 if i2 else 255
+                        re = (i2, cnt // 2, [rng.choice([0, t2, rng.randint(0, t2)])
+                                             for _ in range(cnt // 2 * 3)])
                     sc, n = script_for(rng, s, c, is16, tier, full16=False, cmap=(is16, cnt, cmv),
-                                       via_msg=(cbe == 1))
+                                       via_msg=(cbe == 1), recmap=re)
                     add(sc, n, True, "core:cmap-server", (s, c, is16))
     for s, econ in core_srv[:5]:
         sc, n = script_for(rng, s, Fmt((8, 8, 0, 0, 0, 0, 0, 0, 0, 0)), econ, tier, full16=False)
@@ -449,6 +470,50 @@ def build_cases(ctx):
             finding=FINDING_24 if s.bpp == 24 else None)
         sc, n = script_for(rng, s, s, econ, tier, full16=False, via_msg=False)
         add(sc, n, True, "core:identical", (s, s, econ))
+    # PF_EQ: client formats equal to the server's except for exactly ONE field, every field
+    base = mk(32, host, (7, 7, 7), (0, 8, 16), depth=24)
+    for fld, val in (("depth", 21), ("be", 1 - host), ("rmax", 63), ("gmax", 63), ("bmax", 63),
+                     ("rs", 24), ("gs", 24), ("bs", 24)):
+        sc, n = script_for(rng, base, base.replace(**{fld: val}), 0, tier, via_msg=(fld == "be"))
+        add(sc, n, True, "core:pfeq-" + fld, (base, fld))
+    base16 = mk(16, host, (4, 4, 4), (0, 5, 10), depth=12)
+    for fld, val in (("rs", 1), ("gs", 6), ("bs", 11), ("be", 1 - host)):
+        for econ in (0, 1):
+            sc, n = script_for(rng, base16, base16.replace(**{fld: val}), econ, tier, full16=False)
+            add(sc, n, True, "core:pfeq-" + fld, (base16, fld, econ))
+    # two consecutive SetPixelFormat on the SAME client selecting the same table kind (the old
+    # table is freed and rebuilt), for every table kind and output width
+    for s, econ in core_srv[:5]:
+        if s.bpp == 24:
+            continue
+        for c0 in core_cli:
+            sc1, n1 = script_for(rng, s, c0, econ, tier, full16=False, via_msg=True, extra_px=False)
+            c2 = rand_wf(rng, c0.bpp, 1)
+            sc2, n2 = script_for(rng, s, c2, econ, tier, full16=False, via_msg=False, extra_px=False)
+            add(sc1 + sc2, n1 + n2, True, "core:reset-same-kind", (s, c0, c2, econ))
+    for sb in (8, 16):
+        s = Fmt((sb, sb, host, 0, 0, 0, 0, 0, 0, 0))
+        cm1, cm2 = rand_cmap(rng, sb), rand_cmap(rng, sb)
+        sc1, n1 = script_for(rng, s, core_cli[1], 0, tier, full16=False, cmap=cm1, extra_px=False)
+        sc2, n2 = script_for(rng, s, core_cli[1].replace(be=1), 0, tier, full16=False, cmap=cm2,
+                             extra_px=False)
+        add(sc1 + sc2, n1 + n2, True, "core:reset-same-kind", (s, "cm", sb))
+    # guard stream (exact comparison + sanitizers): client channels that do NOT fit the pixel,
+    # including shifts >= 32 that would be undefined in the table initialisers.  The tree refuses
+    # them (rfbChannelFitsPixel, theorem tree_validates_channel_fit); if that guard is ever
+    # removed the single-table initialiser shifts by >= 32 under UBSan -> crash = counterexample.
+    for s, econ in core_srv:
+        for (cb, mx, sh) in ((32, 255, 32), (32, 255, 40), (32, 1, 255), (32, 255, 25), (16, 31, 12),
+                             (16, 31, 16), (8, 7, 6), (8, 1, 8), (32, 65535, 17)):
+            for ch in range(3):
+                ks = [3, 3, 2] if cb == 8 else [5, 5, 5]
+                c = mk(cb, 0, ks, ([0, 3, 6] if cb == 8 else [0, 5, 10]))
+                c = c.replace(**{("rmax", "gmax", "bmax")[ch]: mx, ("rs", "gs", "bs")[ch]: sh})
+                if (econ, ch) in ((0, 0), (1, 1), (0, 2)) or s.bpp == 8:
+                    sc = "\n".join([s.line("server"), c.line("client"), "econ %d" % econ,
+                                    "setmsg" if ch == 1 else "set", "px 00010203 1 1 4"]) + "\n"
+                    add(sc, 0, False, "core:guard", (s, c, econ),
+                        finding=FINDING_24 if s.bpp == 24 else None)
     # 1. catalogue (both economic settings for 16 bpp servers)
     cat = catalogue()
     full16_budget = 14 if tier == "quick" else 10 ** 9
@@ -504,7 +569,7 @@ def build_cases(ctx):
         else:
             c = rand_wf(rng, rng.choice([8, 16, 32]), rng.randint(0, 1))
         sc, n = script_for(rng, s, c, rng.randint(0, 1), tier, full16=(k % 6 == 1 or tier == "thorough"),
-                           cmap=rand_cmap(rng, sb))
+                           cmap=rand_cmap(rng, sb), recmap=rand_cmap(rng, sb) if k % 2 else None)
         add(sc, n, True, "cmap-server", (s, c, k))
     # 5. colour-map (BGR233) clients of true-colour servers
     nbgr = 8 if tier == "quick" else 40
@@ -519,7 +584,7 @@ def build_cases(ctx):
     #    servers that declare the other byte order, invalid bpp values (reject)
     nex = 40 if tier == "quick" else 300
     for k in range(nex):
-        kind = ["illformed", "stride", "foreign", "reject", "illformed"][k % 5]
+        kind = ["illformed", "stride", "foreign", "reject", "illformed", "recmap"][k % 6]
         sb = rng.choice([8, 16, 32]); cb = rng.choice([8, 16, 32])
         s = rand_wf(rng, sb, host); c = rand_wf(rng, cb, rng.randint(0, 1))
         mode = "multiple"
@@ -543,6 +608,21 @@ def build_cases(ctx):
             else:
                 c = c.replace(bpp=bad) if rng.random() < 0.6 else c.replace(tc=0, bpp=rng.choice([16, 32]))
         if not no_overflow(s, c):
+            continue
+        if kind == "recmap":
+            # palette change for a client that never sent SetPixelFormat (table stays as it was),
+            # for a true-colour server (no effect), and after a rejected request
+            sb = rng.choice([8, 16])
+            s = Fmt((sb, sb, host, 0, 0, 0, 0, 0, 0, 0)) if k % 12 < 6 else s
+            inB = s.bpp // 8
+            src = rng.randbytes(12 * inB).hex()
+            sc = "\n".join([s.line("server"), c.line("client"), cmap_line("cmap", rand_cmap(rng, sb)),
+                            rng.choice(["set", "setmsg"]), "px %s 12 1 %d" % (src, 12 * inB),
+                            cmap_line("recmap", rand_cmap(rng, sb)), "px %s 12 1 %d" % (src, 12 * inB),
+                            c.replace(bpp=12).line("client"), "setmsg", c.line("client"), "set",
+                            cmap_line("recmap", rand_cmap(rng, sb)),
+                            "px %s 12 1 %d" % (src, 12 * inB)]) + "\n"
+            add(sc, 36, False, "exact-only:recmap", (s, c, kind, k))
             continue
         if kind == "reject":
             sc = "\n".join([s.line("server"), c.line("client"), "set", "px 00000000 1 1 4",
